@@ -34,6 +34,17 @@ def dgram_cases(rng, q):
                     ops += ["aread %d 10" % buf, "poll", "arrive 1 %d %d" % (size, rng.randrange(256)), "poll"]
                 ops += ["arrive 2 3 7", "aread 16 11", "poll", "write 1 %d %d" % (min(size, 1372), rng.randrange(256))]
                 cases.append(("case mode=uni", ops))
+    # the same datagram contract on the packet conn (packet.go): buffers with spare capacity, datagrams shorter / equal / longer
+    for buf in (1, 8, 100):
+        for size in sorted(set([1, max(1, buf - 1), buf, buf + 1, buf + 40, 1372])):
+            for early in (0, 1):
+                ops = []
+                if early:
+                    ops += ["arrive 1 %d %d" % (size, rng.randrange(256)), "aread %d 10" % buf]
+                else:
+                    ops += ["aread %d 10" % buf, "poll", "arrive 1 %d %d" % (size, rng.randrange(256)), "poll"]
+                ops += ["arrive 2 3 7", "aread 16 11", "poll", "write 1 %d %d" % (min(size, 1372), rng.randrange(256)), "write 2 5 9"]
+                cases.append(("case mode=pkt", ops))
     # bursts consumed by chained reads with a fresh buffer per read, across the dispatch limit
     for n in ((5, 40, 70) if q else (5, 31, 32, 33, 34, 40, 70, 130)):
         ops = ["arrive %d %d %d" % (1 + k % 3, 8 + k % 5, rng.randrange(256)) for k in range(n)] + ["chain %d 16" % n]
